@@ -55,7 +55,7 @@ impl Prop for IdMaps {
         "idmaps"
     }
     fn cases(&self, tier: Tier) -> u64 {
-        tier.pick(300_000, 6_000_000)
+        tier.pick(300_000, 2_000_000)
     }
     fn strategy(&self, _tier: Tier) -> BoxedStrategy<IdMapCase> {
         let start = prop_oneof![4 => 0u32..64, 1 => any::<u32>()];
@@ -198,7 +198,7 @@ impl Prop for Links {
         "links"
     }
     fn cases(&self, tier: Tier) -> u64 {
-        tier.pick(300_000, 6_000_000)
+        tier.pick(300_000, 2_000_000)
     }
     fn strategy(&self, _tier: Tier) -> BoxedStrategy<LinkCase> {
         (
